@@ -277,3 +277,5 @@ def enumerated(tier):
                 yield {**base, "addresses": ["a.example.com", "b.example.com"], "dns": {"a.example.com": d1, "b.example.com": d2}, "tcp_script": [["refuse", 2], ["ok", 2]]}
     scs = [s for s in life.golden_scenarios() if s["flow"] != "full" or tier == "thorough"]
     yield from life.single_fault_sweep(scs)
+    yield from life.sock_fault_sweep()
+    yield from life.resolve_stage_sweep()
